@@ -16,7 +16,8 @@ import (
 )
 
 type zzScenarioT struct {
-	Values  map[string]string `json:"values"` // nondet name -> concrete value (strings already concretised)
+	Values map[string]string      `json:"values"` // nondet name -> concrete value (strings already concretised)
+	Meta   map[string]interface{} `json:"meta"`   // engine-side facts about the encoding (effect indices ...)
 	Failed  []string          `json:"-"`
 	Reached []string          `json:"-"`
 }
@@ -138,7 +139,8 @@ func zzHavoc(name string, ptr interface{}, spec string) {
 		}
 		if t == reflect.TypeOf(json.RawMessage{}) {
 			if vals[name+".malformed"] == "true" {
-				v.SetBytes([]byte("{"))
+				// valid JSON whose fields have the wrong type: the payload structs refuse it
+				v.SetBytes([]byte(`{"id":5,"ts":7,"from_id":1,"to_id":2,"task_id":3}`))
 				return
 			}
 			m := map[string]string{}
